@@ -1237,7 +1237,7 @@ def funds_matrix(rng, tier):
     cases = []
     v = 1000
     for rep in range({"quick": 1, "thorough": 3}[tier]):
-        h = Hist(3, 3, 1, 3, 10 ** 12, 1000, [6], "directed-matrix", "C09 declared x attached matrix")
+        h = Hist(3, 12, 1, 3, 10 ** 12, 1000, [6], "directed-matrix", "C09 declared x attached matrix")
         # (a third pair whose FIRST asset is the cw20 and whose second is a native coin: a pair keeps the order CreatePair was
         # given - C09-agent17: the funds check skipped on pairs that "start with a cw20")
         created = setup_pairs(h, rng, [(("n", 0), ("n", 1)), (("n", 0), ("t", 2)), (("t", 2), ("n", 1))], comm=3 * 10 ** 15, scale=10 ** 7, even=(rep == 0))
@@ -1251,6 +1251,13 @@ def funds_matrix(rng, tier):
                 h.do(("swap", ntp, u, wrong, ("n", 0), decl, None, None, None))
                 h.do(("provide", ntp, u, wrong, ("n", 0), decl, ("t", 2), 4 * decl, None, None))
                 h.do(("provide", nn, u, wrong, ("n", 0), decl, ("n", 1), decl, None, None))
+        # declared 15 (105) of denom 0 with ONE unit (ten units) of the denom spelled "5" + denom 0 attached: amount and denom
+        # printed together read the same (C09-agent23 / agent25: funds compared through their printed form)
+        for decl, cnt in ((15, 1), (105, 10)):
+            for pr in (nn, ntp):
+                h.do(("swap", pr, u, [(11, cnt)], ("n", 0), decl, None, None, None))
+            h.do(("provide", ntp, u, [(11, cnt)], ("n", 0), decl, ("t", 2), 4 * decl, None, None))
+            h.do(("provide", nn, u, sorted([(11, cnt), (1, decl)]), ("n", 0), decl, ("n", 1), decl, None, None))
         for decl in (0, v, 1, 3):      # 1 and 3: the return floors to zero on these pools (nothing is paid out)
             for att in attach(0, decl) + ([decl * 1000] if decl in (1, 3) else []):
                 for extra in (False, True):
@@ -2285,6 +2292,18 @@ def router_histories(rng, tier):
                     h.do(("router_ops", u, [(ops[0][0][1], amount)], ops, quote[0] + dm, ROUTER), quote)
                 else:
                     h.do(("send", ops[0][0][1], u, ROUTER, amount, ("hrouter", ops, quote[0] + dm, ROUTER)), quote)
+        # a dust offer whose first hop quotes ZERO, followed by a hop through a pair that does not exist: the router's quote is
+        # the composition of the pair quotes, refusals included (C12-agent25: the walk cut short with Ok(0) at a zero hop)
+        for (X_, Y_) in ((A, B), (B, A), (C, E), (E, C)):
+            q_ = h.pair_for(X_, Y_)
+            if q_ is None:
+                continue
+            rx, ry = h.abal(X_, q_), h.abal(Y_, q_)
+            if ry > 0 and rx > 3 * ry:
+                ops = [(X_, Y_), (Y_, ("t", 40))]
+                h.query("rsim 1 %s" % ops_line(ops))
+                h.compose_queries(1, ops, False)
+                break
         # last of all: the router holds some of a route's MIDDLE asset; its forward quote is still the hop-by-hop composition of
         # the pair quotes (C12-agent8: the router's own holdings added to the carried amount of later hops)
         h.do(("bank", USER0, ROUTER, [(B[1], 777)]) if B[0] == "n" else ("transfer", B[1], USER0, ROUTER, 777))
